@@ -47,8 +47,12 @@ pub broadcast axiom fn axiom_cow_from_string<'a>(v: String)
 pub broadcast axiom fn axiom_cow_from_str<'a>(v: &'a str)
     ensures (#[trigger] <Cow<'a, str> as FromSpec<&'a str>>::from_spec(v))@ == v@;
 
+pub broadcast axiom fn axiom_cow_from_cow<'a>(v: Cow<'a, str>)
+    ensures (#[trigger] <Cow<'a, str> as FromSpec<Cow<'a, str>>>::from_spec(v)) == v;
+
 pub axiom fn std_facts()
     ensures
+        <Cow<'static, str> as FromSpec<Cow<'static, str>>>::obeys_from_spec(),
         <String as FromSpec<&str>>::obeys_from_spec(),
         <Cow<'static, str> as FromSpec<String>>::obeys_from_spec(),
         <Cow<'static, str> as FromSpec<&'static str>>::obeys_from_spec();
@@ -234,6 +238,44 @@ pub broadcast axiom fn axiom_as_ref_cow<'a>(s: &Cow<'a, str>)
     ensures #[trigger] as_ref_view::<Cow<'a, str>>(s) == s@;
 pub broadcast axiom fn axiom_as_ref_ref_cow<'a, 'b>(s: &&'b Cow<'a, str>)
     ensures #[trigger] as_ref_view::<&'b Cow<'a, str>>(s) == (**s)@;
+
+
+// W.into_iter: `for c in it` over a caller-supplied `I: IntoIterator<Item = char>`
+#[verifier::external_body]
+#[verifier::reject_recursive_types(T)]
+pub struct VxIter<T: Iterator<Item = char>>(T);
+impl<T: Iterator<Item = char>> Iterator for VxIter<T> {
+    type Item = char;
+    #[verifier::external_body]
+    fn next(&mut self) -> Option<char> { self.0.next() }
+}
+impl<T: Iterator<Item = char>> IteratorSpecImpl for VxIter<T> {
+    open spec fn obeys_prophetic_iter_laws(&self) -> bool { true }
+    #[verifier::prophetic]
+    uninterp spec fn remaining(&self) -> Seq<char>;
+    #[verifier::prophetic]
+    uninterp spec fn will_return_none(&self) -> bool;
+    uninterp spec fn decrease(&self) -> Option<nat>;
+    open spec fn peek(&self, index: int) -> Option<char> { None }
+}
+// the characters an IntoIterator value will yield
+pub uninterp spec fn iter_seq<I>(it: I) -> Seq<char>;
+#[verifier::external_body]
+pub fn vx_into_iter<I: IntoIterator<Item = char>>(it: I) -> (r: VxIter<I::IntoIter>)
+    ensures
+        IteratorSpec::remaining(&r) == iter_seq(it),
+        IteratorSpec::decrease(&r) is Some,
+{ VxIter(it.into_iter()) }
+// for a `Chars` iterator these are the characters not yet consumed
+pub broadcast axiom fn axiom_iter_seq_chars<'a>(it: core::str::Chars<'a>)
+    ensures #[trigger] iter_seq::<core::str::Chars<'a>>(it) == IteratorSpec::remaining(&it);
+
+// ---- small std functions without a vstd specification
+pub assume_specification[ char::from_u32 ](i: u32) -> (r: Option<char>)
+    ensures r == (if i <= 0xD7FF || (0xE000 <= i && i <= 0x10FFFF) { Some(i as char) } else { None::<char> });
+
+pub assume_specification<T>[ bool::then_some ](b: bool, t: T) -> (r: Option<T>)
+    ensures r == (if b { Some(t) } else { None::<T> });
 
 // ------------------------------------------------------------------------------------------------
 // external crates and std Unicode tables as uninterpreted functions
